@@ -1,20 +1,17 @@
 (* Prop_C10.v — property C10 (scheduled management actions take effect exactly once, on time, in
    full), stated about SchedModel / RotationModel (models of hermes/input.go event readers, the
-   firing tests of hermes/nitro.go and hermes/run.go, dueng).  Only statements, each closed by
-   [exact lemma], and Print Assumptions.
+   firing tests of hermes/nitro.go and hermes/run.go, dueng) — code state after /repo 1398842 (pre-start
+   irrigation dropped once BEGINN is known), 0cb3a63 (shift loops make the dates strictly increasing),
+   8d06013 (slot after the last tillage cleared).  Only statements, each closed by [exact lemma], and
+   Print Assumptions.
 
    Reading of the property fixed in DESIGN.md: a fertilisation / tillage dated d is carried out in
    loop day d+1 ("at most one day after"), irrigation, sowing and harvest on their own date; an event
    whose exec-day is after ENDE does not fire.  The residues of the initial crop are fertiliser slot 0
-   dated BEGINN.
-
-   Class of schedules: [fits p l] — the k-th event is dated at least k days after p and every group
-   of consecutive events fits into the days from its first date to its last date + 1.  It contains
-   every strictly ascending schedule, same-day pairs and pairs followed by events on the next days
-   (these cascade), and it excludes exactly the schedules on which the one-pass shift loop of
-   input.go:669-673/701-706 leaves a date behind its predecessor: three events on one day (F18: two
-   fertilisations on the start day, where slot 0 is the third) and a same-day pair reached by a
-   cascade (e.g. pairs on two consecutive days) — see the [_refuted] theorems. *)
+   dated BEGINN.  exact_once holds for EVERY file content (any multiplicity per day, any order); the
+   dates the cursor waits for ([shiftL]) are the least strictly increasing dates not earlier than the
+   file dates (for ascending files); in the class [fits] (at most two per day, no pair reached by a
+   displacement) no event moves by more than one day. *)
 From Coq Require Import ZArith List Bool Reals Sorted.
 From Coq Require String.
 From Hermes Require Import Num SchedModel SchedProofs RotationModel RotationProofs.
@@ -23,36 +20,31 @@ Open Scope Z_scope.
 
 (* exact_once, fertiliser: every slot (0 = residues, i >= 1 = i-th kept line of the field) whose
    exec-day is <= ENDE fires exactly once (In + strictly increasing slots), in schedule order, in
-   sub-step 1, on shifted-date + 1; nothing else fires — for every file content, every start/end. *)
+   sub-step 1, on shifted-date + 1; nothing else fires — for every file content, every start/end,
+   every sub-step count. *)
 Theorem C10_exact_once_fertiliser :
   forall (P : Type) (dflt : P) (B E : Z) (p0 : P) (ls : list (line P)) (steps : Z -> nat),
   0 < B -> (forall z, (1 <= steps z)%nat) ->
-  fits B (dates (kept B (processed true ls))) ->
   exactly_once_in_order (fert_fired (rd_date (fert_read dflt B p0 ls)) steps B E)
                         (shiftL (B :: dates (kept B (processed true ls)))) 1 E 1.
 Proof. exact (@c10_exact_once_fert). Qed.
 
-(* exact_once, tillage; the second hypothesis excludes the stale slot: with no tillage of the field
-   dated inside the period, the last line must not be dated BEGINN-1 *)
+(* exact_once, tillage (BEGINN > day 1: the cleared slot holds 0) *)
 Theorem C10_exact_once_tillage :
   forall (P : Type) (dflt : P) (B E : Z) (ls : list (line P)) (steps : Z -> nat),
-  0 < B -> (forall z, (1 <= steps z)%nat) ->
-  let D := dates (kept B (processed true ls)) in
-  fits (hd 0 D) (tl D) ->
-  (kept B (processed true ls) = [] -> fst (tail_of dflt B (ev0 dflt) (processed true ls)) <> B - 1) ->
-  exactly_once_in_order (till_fired (rd_date (till_read dflt B ls)) steps B E) (shiftL D) 1 E 1.
+  1 < B -> (forall z, (1 <= steps z)%nat) ->
+  exactly_once_in_order (till_fired (rd_date (till_read dflt B ls)) steps B E)
+                        (shiftL (dates (kept B (processed true ls)))) 1 E 1.
 Proof. exact (@c10_exact_once_till). Qed.
 
-(* exact_once, irrigation (at most one per day: strictly ascending dates): fires on its own date.
-   g.BEGINN is still 0 when the irrigation file is read (input.go:320 runs before input.go:590), so
-   the reader drops nothing; the theorem therefore needs every irrigation of the field dated on or
-   after BEGINN (strict_from (B-1)) — see C10_prestart_irrigation_refuted *)
+(* exact_once, irrigation (no shift loop: at most one per day, i.e. the dates inside the period strictly
+   ascending): every irrigation dated BEGINN..ENDE fires once, on its own date; those dated before are ignored *)
 Theorem C10_exact_once_irrigation :
   forall (P : Type) (dflt : P) (B E : Z) (ls : list (line P)),
   0 < B ->
-  let D := dates (kept 0 (processed true ls)) in
+  let D := dates (kept B (processed true ls)) in
   strict_from (B - 1) D ->
-  exactly_once_in_order (irr_fired (rd_date (irr_read dflt 0 ls)) B E) D 0 E 0.
+  exactly_once_in_order (irr_fired (rd_date (irr_read dflt B ls)) B E) D 0 E 0.
 Proof. exact (@c10_exact_once_irr). Qed.
 
 (* exact_once, sowing and harvest with fixed dates: entries (s_k, e_k), k >= 1, with
@@ -63,18 +55,32 @@ Theorem C10_sowing_harvest :
   rot_run saat ernte ernte2 fuel B 0 = rot_expected (B + Z.of_nat fuel - 1) 0 true ((0, B) :: l).
 Proof. exact rot_fixed_dates. Qed.
 
-(* on_time: the dates the cursor waits for are the file dates moved by 0 or 1 day, by 1 exactly when
-   the date collides with its (shifted) predecessor; they are strictly increasing, so colliding events
-   land on consecutive days and nothing fires early *)
+(* on_time: the date an event waits for is its file date or, when that is not later than the day its
+   predecessor was moved to, the day after that; strictly increasing, never earlier than the file date, so
+   nothing fires early and colliding events land on consecutive days *)
 Theorem C10_on_time :
-  forall D : list Z, D <> [] -> fits (hd 0 D) (tl D) ->
+  forall D : list Z, D <> [] ->
   let Sh := shiftL D in
   length Sh = length D /\ nth 0 Sh 0 = nth 0 D 0 /\
-  (forall i, (i < length D)%nat -> nth i D 0 <= nth i Sh 0 <= nth i D 0 + 1) /\
+  (forall i, (i < length D)%nat -> nth i D 0 <= nth i Sh 0) /\
   (forall i, (S i < length D)%nat ->
-     nth (S i) Sh 0 = (if nth (S i) D 0 =? nth i Sh 0 then nth (S i) D 0 + 1 else nth (S i) D 0) /\
+     nth (S i) Sh 0 = (if nth (S i) D 0 <=? nth i Sh 0 then nth i Sh 0 + 1 else nth (S i) D 0) /\
      nth i Sh 0 < nth (S i) Sh 0).
-Proof. exact c10_on_time. Qed.
+Proof. exact shiftL_on_time. Qed.
+
+(* ... these are the LEAST strictly increasing dates not earlier than the file dates *)
+Theorem C10_on_time_least :
+  forall (D t : list Z), D <> [] ->
+  length t = length D -> strict_from (nth 0 t 0 - 1) t -> (forall i, (i < length D)%nat -> nth i D 0 <= nth i t 0) ->
+  forall i, (i < length D)%nat -> nth i (shiftL D) 0 <= nth i t 0.
+Proof. exact shiftL_least. Qed.
+
+(* ... and in the class [fits] — at most two per day and no same-day pair reached by a displacement — no
+   event waits for more than one day after its file date (exec-day <= date + 2 for fertiliser/tillage) *)
+Theorem C10_on_time_one_day :
+  forall D : list Z, D <> [] -> fits (hd 0 D) (tl D) ->
+  forall i, (i < length D)%nat -> nth i (shiftL D) 0 <= nth i D 0 + 1.
+Proof. exact shiftL_one_day. Qed.
 
 Theorem C10_strictly_ascending_not_moved :
   forall D : list Z, strict_from (hd 0 D - 1) D -> shiftL D = D.
@@ -85,7 +91,7 @@ Proof. exact c10_strict_not_moved. Qed.
    exact_once they never fire and do not displace later payloads) *)
 Theorem C10_pre_start_fertiliser :
   forall (P : Type) (dflt : P) (B : Z) (p0 : P) (ls : list (line P)),
-  0 < B -> fits B (dates (kept B (processed true ls))) ->
+  0 < B ->
   let s := fert_read dflt B p0 ls in
   (forall x, In x (kept B (processed true ls)) <-> In x (processed true ls) /\ B <= fst x) /\
   rd_n s = 1 + Z.of_nat (length (kept B (processed true ls))) /\
@@ -96,23 +102,22 @@ Proof. exact (@c10_pre_start). Qed.
 
 Theorem C10_pre_start_tillage :
   forall (P : Type) (dflt : P) (B : Z) (ls : list (line P)),
-  0 < B ->
-  let D := dates (kept B (processed true ls)) in
-  fits (hd 0 D) (tl D) ->
-  (kept B (processed true ls) = [] -> fst (tail_of dflt B (ev0 dflt) (processed true ls)) <> B - 1) ->
   let s := till_read dflt B ls in
   rd_n s = Z.of_nat (length (kept B (processed true ls))) /\
   (forall i, (i < length (kept B (processed true ls)))%nat ->
-     rd_pay s (Z.of_nat i) = snd (nth i (kept B (processed true ls)) (ev0 dflt))).
+     rd_pay s (Z.of_nat i) = snd (nth i (kept B (processed true ls)) (ev0 dflt))) /\
+  rd_date s (rd_n s) = 0.
 Proof. exact (@c10_pre_start_till). Qed.
 
-Theorem C10_irrigation_payload_alignment :
-  forall (P : Type) (dflt : P) (ls : list (line P)),
-  let s := irr_read dflt 0 ls in
-  rd_n s = Z.of_nat (length (kept 0 (processed true ls))) /\
-  (forall i, (i < length (kept 0 (processed true ls)))%nat ->
-     rd_pay s (Z.of_nat i) = snd (nth i (kept 0 (processed true ls)) (ev0 dflt))).
-Proof. exact (@c10_irr_payload). Qed.
+Theorem C10_pre_start_irrigation :
+  forall (P : Type) (dflt : P) (B : Z) (ls : list (line P)),
+  0 < B ->
+  let s := irr_read dflt B ls in
+  rd_n s = Z.of_nat (length (kept B (processed true ls))) /\
+  (forall i, (i < length (kept B (processed true ls)))%nat ->
+     rd_pay s (Z.of_nat i) = snd (nth i (kept B (processed true ls)) (ev0 dflt))) /\
+  (forall j, rd_n s <= j -> rd_date s j = 0).
+Proof. exact (@c10_pre_start_irr). Qed.
 
 (* payload_fert: a firing adds exactly the split of its own slot to DSUMM, NH4Sum, NFOS[0], NAOS[0]
    and advances the cursor; otherwise nothing changes *)
@@ -161,43 +166,30 @@ Theorem C10_substep_safe :
     (forall e, In e (snd (run_days a delta steps fuel z c)) -> snd (fst e) = 1).
 Proof. exact c10_substep_safe. Qed.
 
-(* F18: the statement for "ascending, at most two per day, inside the period" is false: two
-   fertilisations on the start day (witness BEGINN=100, dates 100,100,150, ENDE=400) *)
-Theorem C10_exact_once_refuted :
-  exists (B E : Z) (ds : list Z),
-    ascending ds = true /\ at_most_two_per_day ds = true /\
-    (forall d, In d ds -> B <= d /\ d + 3 <= E) /\
-    (length (fert_fired (rd_date (fert_read tt B tt (mk_lines ds))) one_step B E) < 1 + length ds)%nat.
-Proof. exact c10_exact_once_refuted. Qed.
+(* regression examples (the former refutation witnesses, now carried out) *)
+Example C10_two_on_start_day_fire :
+  fert_fired (rd_date (fert_read tt 100 tt (mk_lines [100; 100; 150]))) one_step 100 400
+  = [(101, 1, 0); (102, 1, 1); (103, 1, 2); (151, 1, 3)].
+Proof. exact f18_example. Qed.
 
-(* same root cause, away from the start day: a same-day pair on the day after a same-day pair
-   (witness dates 200,200,201,201,300): the fourth and the fifth event never fire *)
-Theorem C10_pair_after_pair_refuted :
-  exists (B E : Z) (ds : list Z),
-    ascending ds = true /\ at_most_two_per_day ds = true /\
-    (forall d, In d ds -> B < d /\ d + 5 <= E) /\
-    (length (fert_fired (rd_date (fert_read tt B tt (mk_lines ds))) one_step B E) < 1 + length ds)%nat /\
-    (length (till_fired (rd_date (till_read tt B (mk_lines ds))) one_step B E) < length ds)%nat.
-Proof. exact c10_pair_after_pair_refuted. Qed.
+Example C10_displaced_pairs_fire :
+  fert_fired (rd_date (fert_read tt 100 tt (mk_lines [200; 200; 201; 201; 300]))) one_step 100 400
+  = [(101, 1, 0); (201, 1, 1); (202, 1, 2); (203, 1, 3); (204, 1, 4); (301, 1, 5)] /\
+  till_fired (rd_date (till_read tt 100 (mk_lines [200; 200; 201; 201; 300]))) one_step 100 400
+  = [(201, 1, 0); (202, 1, 1); (203, 1, 2); (204, 1, 3); (301, 1, 4)] /\
+  till_fired (rd_date (till_read tt 100 (mk_lines [200; 200; 200]))) one_step 100 400
+  = [(201, 1, 0); (202, 1, 1); (203, 1, 2)].
+Proof. exact pair_after_pair_example. Qed.
 
-(* "actions dated before the start are ignored" is false for tillage: the last line of a field whose
-   lines are all dated before the start, dated BEGINN-1, is carried out on BEGINN *)
-Theorem C10_prestart_tillage_refuted :
-  exists (B E : Z) (ds : list Z),
-    ascending ds = true /\ (forall d, In d ds -> d < B) /\
-    till_fired (rd_date (till_read tt B (mk_lines ds))) one_step B E <> [].
-Proof. exact c10_prestart_tillage_refuted. Qed.
+Example C10_prestart_tillage_ignored :
+  till_fired (rd_date (till_read tt 100 (mk_lines [90; 99]))) one_step 100 400 = [].
+Proof. exact prestart_tillage_example. Qed.
 
-(* "actions dated before the start are ignored" is false for irrigation: an irrigation dated before
-   the start is kept (BEGINN is 0 while the file is read), the cursor waits for it forever and every
-   later irrigation of the field is lost (witness BEGINN=100, dates 90,150,200, ENDE=400) *)
-Theorem C10_prestart_irrigation_refuted :
-  exists (B E : Z) (ds : list Z),
-    strict_from 0 ds /\ (exists d, In d ds /\ B <= d <= E) /\
-    irr_fired (rd_date (irr_read tt 0 (mk_lines ds))) B E = [].
-Proof. exact c10_prestart_irrigation_refuted. Qed.
+Example C10_prestart_irrigation_ignored :
+  irr_fired (rd_date (irr_read tt 100 (mk_lines [90; 150; 200]))) 100 400 = [(150, 0, 0); (200, 0, 1)].
+Proof. exact prestart_irrigation_example. Qed.
 
-(* non-vacuity: a same-day pair followed by an event on the next day is in the class and is carried
+(* a same-day pair followed by an event on the next day is in the class [fits] and is carried
    out on d+1, d+2, d+3 (BEGINN = 100, residues slot 0 on 101) *)
 Example C10_cascade_example :
   fits 100 [200; 200; 201] /\
@@ -210,15 +202,13 @@ Print Assumptions C10_exact_once_tillage.
 Print Assumptions C10_exact_once_irrigation.
 Print Assumptions C10_sowing_harvest.
 Print Assumptions C10_on_time.
+Print Assumptions C10_on_time_least.
+Print Assumptions C10_on_time_one_day.
 Print Assumptions C10_strictly_ascending_not_moved.
 Print Assumptions C10_pre_start_fertiliser.
 Print Assumptions C10_pre_start_tillage.
-Print Assumptions C10_irrigation_payload_alignment.
+Print Assumptions C10_pre_start_irrigation.
 Print Assumptions C10_payload_fert.
 Print Assumptions C10_payload_amounts.
 Print Assumptions C10_payload_irr.
 Print Assumptions C10_substep_safe.
-Print Assumptions C10_exact_once_refuted.
-Print Assumptions C10_pair_after_pair_refuted.
-Print Assumptions C10_prestart_tillage_refuted.
-Print Assumptions C10_prestart_irrigation_refuted.
